@@ -129,7 +129,11 @@ Record st := mkst {
 
 Definition init (ps : list path) : st := mkst MCheck ps 0 false [] [] 0 0.
 
-Inductive event := EvMain | EvCb (j : nat).
+(* EvMain: the main thread takes its next step.  EvMainRaise: the same, but if that step is the
+   synchronous solve of a stuck path whose solver call fails (truthful answer Err), the failure
+   surfaces as an exception inside solve_low_level (unparsable model text, Popen failure)
+   instead of an `err` result -- and, like ShutdownError, leaves run_test. *)
+Inductive event := EvMain | EvMainRaise | EvCb (j : nat).
 
 Fixpoint take (j : nat) (l : list (nat * answer)) : option (answer * list (nat * answer)) :=
   match l with
@@ -182,8 +186,22 @@ Definition step_cb (early_exit : bool) (j : nat) (s : st) : st :=
            rest (outs s ++ [out]) (nstuck s) (normal s)
   end.
 
+Definition step_main_raise (s : st) : st :=
+  match mst s, todo s with
+  | MBody, p :: _ =>
+      match kind_action (kind p) with
+      | AStuckSolve => if is_err (ans p) then set_mst s MCrashed else step_main s
+      | _ => step_main s
+      end
+  | _, _ => step_main s
+  end.
+
 Definition step (early_exit : bool) (s : st) (e : event) : st :=
-  match e with EvMain => step_main s | EvCb j => step_cb early_exit j s end.
+  match e with
+  | EvMain => step_main s
+  | EvMainRaise => step_main_raise s
+  | EvCb j => step_cb early_exit j s
+  end.
 
 Definition run (early_exit : bool) (ps : list path) (sched : list event) : st :=
   fold_left (step early_exit) sched (init ps).
